@@ -48,6 +48,38 @@ def convert_script(s, chan_type, rng):
                     "feerate": rng.choice([253, 1000])}, "ops": ops}
 
 
+def convert_batch(s, rng):
+    """Behaviour of BatchOpen.tla -> channet script: node 0 funds one channel to each of its n peers (star) with a
+    single transaction; per channel the write mode of its first monitor and the moment funding_signed arrives,
+    completions oldest / newest first as TLC chose."""
+    n = s["n"]
+    peers = list(range(1, n + 1))
+    value = rng.choice([100000, 1000000])
+    cfg = {"nodes": n + 1, "edges": [[0, p] for p in peers], "chan_type": rng.choice(["static", "anchors", "zerofee"]),
+           "value": value, "push": value * 500, "feerate": 253}
+    ops = [{"op": "open_batch", "a": 0, "peers": peers}]
+    for p in peers:
+        ops += [{"op": "deliver", "from": 0, "to": p}, {"op": "deliver", "from": p, "to": 0}]      # open_channel, accept_channel
+    for p in peers:
+        ops.append({"op": "deliver", "from": 0, "to": p})                                          # funding_created
+    for st in s["steps"]:
+        if st["op"] == "fs":
+            ops.append({"op": "persist_mode", "node": 0, "mode": "inprogress" if st["async"] else "completed"})
+            ops.append({"op": "deliver", "from": st["chan"], "to": 0})                              # funding_signed
+            ops.append({"op": "persist_mode", "node": 0, "mode": "completed"})
+        else:
+            ops.append({"op": "complete", "node": 0, "which": "newest" if st["newest"] else "oldest"})
+    ops += [{"op": "deliver_all"}, {"op": "confirm_extra"}, {"op": "deliver_all"}]
+    pairs = [(0, p) for p in peers]
+    ops += [{"op": "reconnect", "a": a, "b": b} for a, b in pairs]
+    ops += [{"op": "complete", "node": 0, "which": "all"}, {"op": "deliver_all"}, {"op": "confirm_extra"}, {"op": "deliver_all"},
+            {"op": "proj", "final": True}]
+    return {"cfg": cfg, "ops": ops}
+
+
+MODEL_CONVERTERS = {"BatchOpen": convert_batch}
+
+
 def run_lines(path, run):
     out = []
     with open(path) as f:
@@ -290,6 +322,7 @@ def run_check(pid, tier, seed, mc_cfgs, profiles, thorough_profiles, assumptions
 
     # ---- design check + behaviours
     mcs, scripts = [], []
+    model_scripts = {}
     for cfg in mc_cfgs[1 if thorough else 0]:
         mod = mc_module
         if ":" in cfg:
@@ -301,7 +334,11 @@ def run_check(pid, tier, seed, mc_cfgs, profiles, thorough_profiles, assumptions
         got = vlib.tlc_printed(r["out"], "SCRIPT")
         vlib.log("[mc] %s: %d distinct states, %d generated, depth %d, %d scripts, %.0fs" %
                  (cfg, r["distinct"], r["states"], r["depth"], len(got), r["wall_s"]))
-        scripts += got
+        if mod in MODEL_CONVERTERS:
+            model_scripts.setdefault(mod, [])
+            model_scripts[mod] += got
+        else:
+            scripts += got
         r.pop("out")
         mcs.append((cfg, r))
     # spec-side rehearsal: with the guard removed TLC must find the loss (the invariants are not vacuous)
@@ -325,6 +362,21 @@ def run_check(pid, tier, seed, mc_cfgs, profiles, thorough_profiles, assumptions
 
     # ---- real code
     batches = [("tlc", ["--scripts", spath], 2)] if conv else []
+    # behaviours of the small design models (BatchOpen, StaleReconcile, ...), each with its own translation to engine ops
+    for mod, got in model_scripts.items():
+        mcap = 1500 if thorough else 260
+        if len(got) > mcap:
+            got = rng.sample(got, mcap)
+        made = [MODEL_CONVERTERS[mod](g, rng) for g in got]
+        made = [x for x in made if x]
+        if not made:
+            raise vlib.ToolError("design model %s emitted no usable behaviour" % mod)
+        mpath = os.path.join(wd, "scripts-tlc-%s.ndjson" % mod)
+        with open(mpath, "w") as f:
+            for s_ in made:
+                f.write(json.dumps(s_) + "\n")
+        batches.append(("tlc-" + mod, ["--scripts", mpath], made[0]["cfg"]["nodes"]))
+        conv = conv + made
     for name, nodes, runs in (thorough_profiles if thorough else profiles):
         batches.append((name + str(nodes), ["--random", runs, "--nodes", nodes, "--profile", name], nodes))
     # structured schedules (checks/fwd_scripts.py): a fixed skeleton around a narrow window, the rest random
